@@ -769,6 +769,9 @@ class _Tee(ToolBase):
         src = g.src(items)
         carry_on = g.ch.chance(1, 2) and src.flavour in ("aiter_cls", "aiter_noclose", "aiter_full", "aiterable")
         p = {"n": n, "order": tuple(order), "carry_on": carry_on}
+        # the children are advanced by one consumer in turn, yet the tee may be given a lock all the same (a plain mutex
+        # that never suspends): it is taken and released within each step - a step that found it held would wait for ever
+        p["lock"] = g.cfg.odd_sources and g.ch.chance(1, 4)
         if order and g.cfg.odd_sources and g.ch.chance(1, 5):
             # at one point of the history a child (lagging or not) is split again: tee(child, 2) - its two halves take
             # its place and a new last place; entries naming that new place do nothing before the split
@@ -778,7 +781,21 @@ class _Tee(ToolBase):
         return Spec("tee", [src], [], p)
 
     def a(self, L, spec, S, F):
-        handle = L.tee(S[0], spec.p["n"])
+        if spec.p.get("lock"):
+            class PlainLock:
+                held = False
+
+                async def __aenter__(self):
+                    if self.held:
+                        raise RuntimeError("deadlock: the tee's lock is taken while a step of a sibling still holds it")
+                    self.held = True
+
+                async def __aexit__(self, *exc):
+                    self.held = False
+
+            handle = L.tee(S[0], spec.p["n"], lock=PlainLock())
+        else:
+            handle = L.tee(S[0], spec.p["n"])
         children = [handle[i] for i in range(len(handle))]
         order = spec.p["order"]
         stop = ("stop",)
